@@ -378,6 +378,18 @@ def recvRecord {S} (P : Prims S) (c : Cfg) (rv : Recv S) (h : Rec) : RecvResult 
       else if data.length > rv.recvLimit then .err .record_overflow
       else .ok rv' h.typ data
 
+/-- `RecordSocket._recvHeader`: a first byte that is a ContentType starts a 5-byte SSLv3/TLS header,
+    anything else is read as an SSLv2 header -/
+def isTlsHeaderByte (b0 : UInt8) : Bool := b0 == 20 || b0 == 21 || b0 == 22 || b0 == 23 || b0 == 24
+
+/-- `recvRecord` on a record that came with an SSLv2 header: refused (`unexpected_message`) when the
+    connection is not SSLv2 and the read state has a cipher or a MAC; `none`: SSLv2 processing, not
+    modelled (only the first ClientHello may legitimately arrive this way) -/
+def recvSsl2Framed (c : Cfg) : Option Err :=
+  if !((c.vmaj == 2 && c.vmin == 0) || (c.vmaj == 0 && c.vmin == 2)) && (c.cipher != .null || c.hasMac) then
+    some .unexpected_message
+  else none
+
 /-! ## fragmentation (`TLSRecordLayer._sendMsg`) -/
 
 /-- `while len(buf) > recordSize: ...` ; `fuel` bounds the loop (it terminates within
